@@ -568,7 +568,7 @@ CHECKS['C04']['protos'].append({'name': 'crash', 'mode': 'cert', 'quick_seeds': 
 CHECKS['C04']['rule'] = CHECKS['C04']['rule'] + ("; protocol crash (CRASH_FOCUS=cluster): quick 6 / thorough 60 runs of a 3-PROCESS group (three zvh child processes, "
     "real server.Server each, raft over rafthttp, snapshot transfer between their directories), one client, SIGKILL of the leader or a follower after a random number "
     "of acknowledgements in the middle of 120-200 writes, the client goes on with the new leader (what the dead leader left unanswered is optional), the victim is "
-    "restarted a fifth of the history later or at the end; after settling EVERY replica is dumped and checked by CrashCert.checkCrash; Go oracle: acked-lost, "
+    "restarted a fifth of the history later or at the end; plus 1 / 4 runs in which the leader applies ONE entry 4.5 s late (slow step at apply.entry.before, beyond the 4 s proposal timeout; GOMAXPROCS=1 in the children; LPOPs of a filled list right behind the stalled entry); after settling EVERY replica is dumped and checked by CrashCert.checkCrash; Go oracle: acked-lost, "
     "wrong-reply, phantom-write, not-a-prefix, replica-diverge, restart-failed")
 CHECKS['C04']['assumptions'] = ["kill -9 runs have one (pipelining) client; concurrent clients only under graceful faults (protocol lin)", "one partition, one namespace, <= 4 keys per history"]
 CHECKS['C04']['level_text'] = CHECKS['C04']['level_text'] + (" KILL -9: C04_kill9_acked_never_lost — every replica dump accepted by the crash certificate checker is the sequential "
